@@ -465,15 +465,15 @@ theorem count_cliques_exact (n : Nat) (adj : Nat → Nat → Bool) (hsym : ∀ a
 
 /-- the Python entry points refuse a non-square matrix (`check_square`; in `get_core_decomposition` since the repair
     e18a5a2e of /repo) and a clique size below two, before any kernel runs -/
-theorem core_and_cliques_refusals (nRow nCol : Nat) (val : Nat → Nat → Rat) (edge : Nat → Nat → Bool) (k : Int) :
+theorem core_and_cliques_refusals (nRow nCol : Nat) (val : Nat → Nat → Rat) (k : Int) :
     (nRow ≠ nCol → getCoreDecomposition nRow nCol val = .error .valueError) ∧
-    (nRow ≠ nCol → countCliquesEntry nRow nCol val edge k = .error .valueError) ∧
-    (k < 2 → countCliquesEntry nRow nCol val edge k = .error .valueError) := by
+    (nRow ≠ nCol → countCliquesEntry nRow nCol val k = .error .valueError) ∧
+    (k < 2 → countCliquesEntry nRow nCol val k = .error .valueError) := by
   refine ⟨fun h => by simp [getCoreDecomposition, h], fun h => ?_, fun h => by simp [countCliquesEntry, h]⟩
   unfold countCliquesEntry
   by_cases hk : k < 2
   · rw [if_pos hk]
-  · rw [if_neg hk]; simp [getCoreDecomposition, h]
+  · rw [if_neg hk]; simp [h]
 
 example : (2 : Nat) ≠ 3 ∧ ((1 : Int) < 2) := by decide
 
@@ -500,22 +500,35 @@ example : ∀ i j, coreEdge (fun i j : Nat => if i + 1 = j then (2 : Rat) else i
     · simp [h1, h2]
     · simp [h1, h2]
 
-/-- ★ `count_cliques` end to end, whatever the storage (stored zeros, duplicate entries, unsorted rows, weights): the
-    core values come from the canonicalised matrix (`coreEdge val`), the DAG from the stored non-zero entries
-    (`edge`); when both are the symmetric predicate `adj` — always the case for positive weights — the result is the
-    number of `k`-cliques, for every `k ≥ 2` -/
-theorem count_cliques_entry_exact (n : Nat) (adj : Nat → Nat → Bool) (hsym : ∀ a b, adj a b = adj b a)
-    (val : Nat → Nat → Rat) (hval : ∀ i j, coreEdge val i j = adj i j) (k : Nat) (hk : 2 ≤ k) :
-    countCliquesEntry n n val adj (k : Int) = .ok (some (cliqueCount n adj k)) := by
+theorem symEdge_symm (val : Nat → Nat → Rat) (a b : Nat) : symEdge val a b = symEdge val b a := by
+  unfold symEdge; rw [Rat.add_comm]
+
+/-- ★ `count_cliques` end to end, for **every square matrix** (directed or not, any weights, any storage): since the
+    repair of /repo that symmetrises the input as `count_triangles` does, `count_cliques(adjacency, k)` is the number
+    of `k`-cliques of the undirected graph `A + Aᵀ ≠ 0`, for every `k ≥ 2` — no hypothesis on the matrix -/
+theorem count_cliques_entry_exact (n : Nat) (val : Nat → Nat → Rat) (k : Nat) (hk : 2 ≤ k) :
+    countCliquesEntry n n val (k : Int) = .ok (some (cliqueCount n (symEdge val) k)) := by
   unfold countCliquesEntry
   have h1 : ¬ ((k : Int) < 2) := by omega
-  rw [if_neg h1, get_core_decomposition_exact n adj hsym val hval]
+  rw [if_neg h1]
+  simp only [bne_self_eq_false, Bool.false_eq_true, if_false]
+  obtain ⟨labels, hl1, hl2, _⟩ := computeCore_spec n (symEdge val) (symEdge_symm val)
+  rw [hl1]
   simp only [Int.toNat_natCast]
-  have hp : (argsort (tab n fun v => (coreNumberSpec n adj v : Int))).Perm (List.range n) := by
-    have := argsort_perm (tab n fun v => (coreNumberSpec n adj v : Int))
-    rwa [tab_length] at this
-  rw [cliques_exact n adj hsym k hk _ hp]
+  have hp : (argsort labels).Perm (List.range n) := by rw [← hl2]; exact argsort_perm labels
+  rw [cliques_exact n (symEdge val) (symEdge_symm val) k hk _ hp]
   rfl
+
+example : (2 : Nat) ≤ 3 := by decide
+
+/-- for an undirected graph given by its symmetric 0/1 matrix this is the number of `k`-cliques of the graph -/
+theorem count_cliques_entry_exact_undirected (n : Nat) (adj : Nat → Nat → Bool) (hsym : ∀ a b, adj a b = adj b a)
+    (k : Nat) (hk : 2 ≤ k) :
+    countCliquesEntry n n (fun i j => if adj i j then 1 else 0) (k : Int) = .ok (some (cliqueCount n adj k)) := by
+  rw [count_cliques_entry_exact n _ k hk]
+  congr 3
+  funext i j
+  exact symEdge_indicator adj hsym i j
 
 /-! ### clustering coefficient -/
 
@@ -641,6 +654,18 @@ theorem core_relabel_equivariant {n : Nat} {π πinv : Nat → Nat} (hp : SkNet.
     core_exact_spec_csr n _ (relabel_symm πinv adj hsym) indptr' indices' hcsr', ?_⟩
   intro v hv
   rw [tab_getD, tab_getD, if_pos (hp.lt v hv), if_pos hv, coreNumberSpec_relabel hp adj v hv]
+
+/-- ★ `cliques_relabel_invariant` at the entry point, for **every square matrix** (digraphs included, any weights):
+    `count_cliques(k)` of the renumbered matrix equals `count_cliques(k)` of the matrix, for every `k` -/
+theorem count_cliques_entry_relabel_invariant {n : Nat} {π πinv : Nat → Nat} (hp : SkNet.WL.IsPerm n π πinv)
+    (val : Nat → Nat → Rat) (k : Int) :
+    countCliquesEntry n n (fun i j => val (πinv i) (πinv j)) k = countCliquesEntry n n val k := by
+  by_cases hk : k < 2
+  · rw [(core_and_cliques_refusals n n _ k).2.2 hk, (core_and_cliques_refusals n n val k).2.2 hk]
+  · have hk' : k = ((k.toNat : Nat) : Int) := by omega
+    rw [hk', count_cliques_entry_exact n _ k.toNat (by omega), count_cliques_entry_exact n val k.toNat (by omega)]
+    have hrel : symEdge (fun i j => val (πinv i) (πinv j)) = relabel πinv (symEdge val) := rfl
+    rw [hrel, cliqueCount_relabel hp (symEdge val) (symEdge_symm val) k.toNat]
 
 /-- ★ the clustering coefficient of the renumbered matrix is the clustering coefficient of the matrix (including
     the `nan` case), sequentially and under any two valid schedules -/
